@@ -227,7 +227,7 @@ class Driver(object):
     def available(self):
         return os.path.exists(self.path)
 
-    def run(self, lines, timeout=1800):
+    def run(self, lines, timeout=600):
         data = ("\n".join(lines) + "\n").encode("utf-8")
         p = subprocess.run([self.path], input=data, stdout=subprocess.PIPE, stderr=subprocess.PIPE, timeout=timeout)
         out = p.stdout.decode("utf-8", "replace").split("\n")
